@@ -56,7 +56,7 @@ def sqf_of(op):
     raise vlib.MachineryError("unknown op " + k)
 
 
-def mc_cfg(wdir, name, depth, profile, emit, append_ok=True, set_grows=False, maxref=4):
+def mc_cfg(wdir, name, depth, profile, emit, append_ok=True, set_grows=False, maxref=4, stepview=None):
     cfg = """SPECIFICATION Spec
 CONSTANTS
   MaxRef = %d
@@ -68,7 +68,7 @@ CONSTANTS
   Profile = "%s"
 VIEW %s
 INVARIANTS InvAcyclic InvAliases InvFresh InvRefused
-""" % (maxref, "TRUE" if append_ok else "FALSE", "TRUE" if set_grows else "FALSE", depth, "TRUE" if emit else "FALSE", profile, "View" if emit else "ViewStep")
+""" % (maxref, "TRUE" if append_ok else "FALSE", "TRUE" if set_grows else "FALSE", depth, "TRUE" if emit else "FALSE", profile, "ViewStep" if (stepview if stepview is not None else not emit) else "View")
     p = os.path.join(vlib.SPEC, "gen_" + name + ".cfg")
     with open(p, "w") as f:
         f.write(cfg)
@@ -178,10 +178,16 @@ def run(rep, tier, seed, replay):
     else:
         # ---- 1. design check: ideal spec satisfies the formulas; each deviation is caught (non-vacuity)
         d_core, d_full = (4, 3) if tier == "quick" else (5, 4)
-        r = vlib.tlc("Heap_MC", mc_cfg(wdir, "mc_core", d_core + 1, "core", False), workers=vlib.NCPU, timeout_s=1500, xmx="16g")
+        # every transition is seen (step view) up to depth 5; one level deeper with the state view only (memory)
+        r = vlib.tlc("Heap_MC", mc_cfg(wdir, "mc_core", 5, "core", False), workers=vlib.NCPU, timeout_s=1500, xmx="16g")
         if not r.ok:
             raise vlib.MachineryError("design check of the ideal Heap spec failed: %s %s" % (r.violated, (r.error or "")[:500]))
-        rep.add_tlc(r, "Heap_MC ideal, core ops, depth %d" % (d_core + 1))
+        rep.add_tlc(r, "Heap_MC ideal, core ops, depth 5, every transition")
+        if tier != "quick":
+            r = vlib.tlc("Heap_MC", mc_cfg(wdir, "mc_core6", d_core + 1, "core", False, stepview=False), workers=vlib.NCPU, timeout_s=3000, xmx="24g")
+            if not r.ok:
+                raise vlib.MachineryError("design check of the ideal Heap spec (depth %d) failed: %s %s" % (d_core + 1, r.violated, (r.error or "")[:500]))
+            rep.add_tlc(r, "Heap_MC ideal, core ops, depth %d, state view" % (d_core + 1))
         for nm, kw, inv in (("append", {"append_ok": False}, "InvAcyclic"), ("setgrow", {"set_grows": True}, "InvRefused")):
             r2 = vlib.tlc("Heap_MC", mc_cfg(wdir, "mc_dev_" + nm, 4, "core", False, **kw), workers=4, timeout_s=600)
             if r2.violated != inv:
